@@ -103,3 +103,495 @@ Proof.
   destruct (s_cancelled (scopes s5 c)); [|exact O5].
   apply (owns_kstar_none _ _ _ _ (ks_deliver_top _ _ s5 c)), O5.
 Qed.
+
+(* ---------------- Run across the non-terminal blocks ---------------- *)
+Lemma begin_act_final s t : k_final (tasks (begin_act s t) t) = k_final (tasks s t).
+Proof. unfold begin_act. tcase t t; [reflexivity|contradiction]. Qed.
+Lemma begin_act_done s t : k_done (tasks (begin_act s t) t) = k_done (tasks s t).
+Proof. unfold begin_act. tcase t t; [reflexivity|contradiction]. Qed.
+
+Lemma Run_begin s t : Inv s -> idle s t = true -> Run t (begin_act s t).
+Proof.
+  intros I Hi. destruct (M_begin_act s t I Hi) as [M [Hr [Hc Hal]]]. refine (conj M (conj Hr _)).
+  rewrite begin_act_final. destruct I as [M0 Hrun].
+  destruct (k_final (tasks s t)) eqn:E; [|reflexivity]. exfalso.
+  assert (Hd : k_done (tasks s t) <> None).
+  { apply (h_fd s (m_c s M0) t); [rewrite Hrun; discriminate|congruence]. }
+  apply Hd. destruct (k_run _ (m_k _ M) t Hr) as [_ [H _]]. rewrite begin_act_done in H. exact H.
+Qed.
+
+Lemma Inv_ret s t r : Run t s -> Inv (fst (ret_to_puppet s t r)).
+Proof. intros [M [Hr Hf]]. split; [apply M_ret_to_puppet; auto|reflexivity]. Qed.
+
+Lemma Run_new_scope t s d sh : Run t s -> Run t (ns s d sh).
+Proof. intros [M [Hr Hf]]. exact (conj (M_new_scope s d sh M) (conj Hr Hf)). Qed.
+
+Lemma Run_upd_task_irrel t s x g : tk_irrel g -> Run t s -> Run t (upd_task s x g).
+Proof.
+  intros Hg [M [Hr Hf]]. refine (conj (M_upd_task_irrel s x g Hg M) (conj Hr _)).
+  tcase t x; [|exact Hf]. subst. destruct (Hg (tasks s x)) as [_ [_ [_ [_ [_ [_ [_ [_ [_ [_ [-> _]]]]]]]]]]]. exact Hf.
+Qed.
+
+Lemma Run_keeps t s c g : sc_keeps g -> Run t s -> Run t (upd_scope s c g).
+Proof. intros Hg. apply Run_kstar_none, ks_one, kp_scope_keeps, Hg. Qed.
+
+Lemma Run_new_fut t s : Run t s -> Run t (nf s) /\ fresh (nf s) (nfut s).
+Proof. intros [M [Hr Hf]]. destruct (M_new_fut s M) as [M1 F]. exact (conj (conj M1 (conj Hr Hf)) F). Qed.
+
+(* ---------------- the simple puppet operations ---------------- *)
+Lemma op_new_scope s t d sh : Run t s ->
+  Inv (fst (let '(s1, c) := new_scope s d sh in ret_to_puppet s1 t (RRet c))).
+Proof. intros R. rewrite new_scope_eq. apply Inv_ret, Run_new_scope, R. Qed.
+
+Lemma op_enter s t c : Run t s ->
+  Inv (fst (let '(s1, e) := scope_enter s c t in
+            ret_to_puppet s1 t (match e with Some x => RExc x | None => RRet 0 end))).
+Proof.
+  intros R. pose proof (Run_scope_enter t s c R) as R1.
+  destruct (scope_enter s c t) as [s1 e]. apply Inv_ret, R1.
+Qed.
+
+Lemma op_fail_at s t d sh : Run t s ->
+  Inv (fst (let '(s1, c) := new_scope s d sh in
+            let '(s2, e) := scope_enter s1 c t in
+            ret_to_puppet s2 t (match e with Some x => RExc x | None => RRet c end))).
+Proof.
+  intros R. rewrite new_scope_eq. pose proof (Run_scope_enter t _ (nscope s) (Run_new_scope t s d sh R)) as R1.
+  destruct (scope_enter (ns s d sh) (nscope s) t) as [s2 e]. apply Inv_ret, R1.
+Qed.
+
+Lemma op_exit s t c failat : Run t s ->
+  Inv (fst (let exc := k_held (tasks s t) in
+      let '(s1, x) := scope_exit s c t exc in
+      match x with
+      | XTrue =>
+          let s2 := upd_task s1 t (tk_held None) in
+          if failat && s_caught (scopes s2 c) &&
+             match s_deadline (scopes s2 c) with Some d => Z.leb d (now s2) | None => false end
+          then ret_to_puppet s2 t (RExc ETimeout) else ret_to_puppet s2 t (RRet 1)
+      | XFalse => ret_to_puppet s1 t (RRet 0)
+      | XRaise e => ret_to_puppet s1 t (RExc e)
+      end)).
+Proof.
+  intros R. cbn zeta. pose proof (Run_scope_exit t s c (k_held (tasks s t)) R) as R1.
+  destruct (scope_exit s c t (k_held (tasks s t))) as [s1 x]. cbn [fst] in R1.
+  destruct x; try (apply Inv_ret, R1).
+  match goal with |- context [if ?b then _ else _] => destruct b end;
+    apply Inv_ret, Run_upd_task_irrel; auto using irrel_held.
+Qed.
+
+Lemma op_cancel s t c : Run t s -> Inv (fst (ret_to_puppet (scope_cancel s c false) t (RRet 0))).
+Proof. intros R. apply Inv_ret. apply (Run_kstar_none t _ _ (ks_scope_cancel _ _ s c false)), R. Qed.
+
+Lemma op_set_shield s t c b : Run t s ->
+  Inv (fst (if Bool.eqb (s_shield (scopes s c)) b then ret_to_puppet s t (RRet 0) else
+      let s1 := upd_scope s c (sc_shield b) in
+      ret_to_puppet (if b then s1 else restart s1 (s_parent (scopes s1 c))) t (RRet 0))).
+Proof.
+  intros R. destruct (Bool.eqb (s_shield (scopes s c)) b); [apply Inv_ret, R|]. cbn zeta.
+  pose proof (Run_keeps t s c _ (keeps_shield b) R) as R1.
+  apply Inv_ret. destruct b; [exact R1|]. apply (Run_kstar_none t _ _ (ks_restart _ _ _ _)), R1.
+Qed.
+
+Lemma op_set_deadline s t c d : Run t s ->
+  Inv (fst (let s1 := cancel_timeout (upd_scope s c (sc_deadline d)) c in
+      let s2 := if s_active (scopes s1 c) && negb (s_cancelled (scopes s1 c)) then scope_timeout s1 c else s1 in
+      ret_to_puppet s2 t (RRet 0))).
+Proof.
+  intros R. cbn zeta. apply Inv_ret.
+  pose proof (Run_keeps t s c _ (keeps_deadline d) R) as R1.
+  pose proof (Run_kstar_none t _ _ (ks_cancel_timeout _ _ _ c) R1) as R2.
+  match goal with |- context [if ?b then _ else _] => destruct b end; [|exact R2].
+  apply (Run_kstar_none t _ _ (ks_scope_timeout _ _ _ c)), R2.
+Qed.
+
+Lemma op_group_new s t : Run t s ->
+  Inv (fst (let '(s1, c) := new_scope s None false in
+      let g := ngroup s1 in
+      let s2 := mkSt (tasks s1) (ntask s1) (scopes s1) (nscope s1)
+                     (upd (groups s1) g (mkGroup c false [] [] None [] false)) (S g)
+                     (futs s1) (nfut s1) (events s1) (nevent s1) (ready s1) (timers s1) (ntimer s1)
+                     (now s1) (running s1) in
+      ret_to_puppet s2 t (RRet g))).
+Proof.
+  intros R. rewrite new_scope_eq. cbn zeta. apply Inv_ret.
+  destruct (Run_new_scope t s None false R) as [M [Hr Hf]].
+  change (Run t (galloc (ns s None false) (nscope s))).
+  refine (conj (M_galloc _ _ M _) (conj Hr Hf)). unfold ns, new_scope. cbn. lia.
+Qed.
+
+Lemma Run_gr_entered t s g b : Run t s -> Run t (upd_group s g (gr_entered b)).
+Proof. intros [M [Hr Hf]]. exact (conj (M_gr_entered s g b M) (conj Hr Hf)). Qed.
+
+Lemma op_group_enter s t g : Run t s ->
+  Inv (fst (if g_entered (groups s g) then ret_to_puppet s t (RExc ERuntime) else
+      let s1 := upd_group s g (gr_entered true) in
+      let '(s2, e) := scope_enter s1 (g_scope (groups s1 g)) t in
+      ret_to_puppet s2 t (match e with Some x => RExc x | None => RRet 0 end))).
+Proof.
+  intros R. destruct (g_entered (groups s g)); [apply Inv_ret, R|]. cbn zeta.
+  apply op_enter, Run_gr_entered, R.
+Qed.
+
+Lemma op_irrel s t g r : tk_irrel g -> Run t s -> Inv (fst (ret_to_puppet (upd_task s t g) t r)).
+Proof. intros Hg R. apply Inv_ret, Run_upd_task_irrel; auto. Qed.
+
+Lemma op_handle_cancel s t h : Run t s ->
+  Inv (fst (if e_set (events s (k_hevent (tasks s h))) then ret_to_puppet s t (RRet 0)
+            else ret_to_puppet (scope_cancel s (k_hscope (tasks s h)) false) t (RRet 0))).
+Proof. intros R. destruct (e_set _); [apply Inv_ret, R|apply op_cancel, R]. Qed.
+
+(* ---------------- blocking puppet operations ---------------- *)
+Definition plain_ctl (c : ctl) : Prop :=
+  c <> CDone /\ top_scope c = None /\ (forall g ch f, c <> CStartWait g ch f) /\
+  (forall ch x e wf, c <> CStartJoin ch x e wf).
+
+Lemma ctl_ok_plain s t c : plain_ctl c -> ctl_ok s t c.
+Proof.
+  intros [P1 [P2 [P3 P4]]]. refine (conj P1 (conj _ (conj _ _))).
+  - intros x Hx. congruence.
+  - intros g ch f E. exfalso. exact (P3 _ _ _ E).
+  - intros ch x e wf E. exfalso. exact (P4 _ _ _ _ E).
+Qed.
+
+Lemma ctl_ok_top s t c x : top_scope c = Some x -> owns s t x -> c <> CDone ->
+  (forall g ch f, c <> CStartWait g ch f) -> (forall ch y e wf, c <> CStartJoin ch y e wf) -> ctl_ok s t c.
+Proof.
+  intros Hx Ho P1 P3 P4. refine (conj P1 (conj _ (conj _ _))).
+  - intros y Hy. rewrite Hx in Hy. injection Hy as <-. exact Ho.
+  - intros g ch f E. exfalso. exact (P3 _ _ _ E).
+  - intros ch y e wf E. exfalso. exact (P4 _ _ _ _ E).
+Qed.
+
+Ltac plain := unfold plain_ctl; refine (conj _ (conj _ (conj _ _))); [discriminate|reflexivity|discriminate|discriminate].
+
+Lemma Inv_block_yield s t c : Run t s -> ctl_waiter c None -> ctl_ok s t c ->
+  Inv (fst (blocked (set_ctl (bare_yield s t) t c))).
+Proof. intros [M [Hr Hf]] Hw Ho. split; [apply M_block_yield; auto|reflexivity]. Qed.
+
+Lemma Inv_block_on s t f c : Run t s -> unwaited s f -> ctl_waiter c (Some f) -> c <> CIdle -> ctl_ok s t c ->
+  Inv (fst (blocked (set_ctl (suspend_on s t f) t c))).
+Proof.
+  intros [M [Hr Hf]] Hu Hw Hi Ho. split; [apply M_block_on; auto|reflexivity].
+Qed.
+
+Lemma Run_fut_complete t s f v : Run t s -> v <> FPend -> refd s f ->
+  (forall r e, v = FRes r -> In f (e_waiters (events s e)) -> e_set (events s e) = true) ->
+  Run t (fut_complete s f v).
+Proof.
+  intros [M [Hr Hf]] Hv Hrf He. refine (conj (M_fut_complete s f v M Hv Hrf He) (conj _ _)).
+  - now rewrite fc_running.
+  - now rewrite fc_tasks.
+Qed.
+
+Lemma op_started s t v : Run t s ->
+  Inv (fst (match k_startfut (tasks s t) with
+      | None => ret_to_puppet s t (RRet 0)
+      | Some f =>
+          match f_st (futs s f) with
+          | FPend => ret_to_puppet (fut_complete s f (FRes v)) t (RRet 0)
+          | FCanc _ => ret_to_puppet s t (RRet 0)
+          | _ => ret_to_puppet s t (RExc ERuntime)
+          end
+      end)).
+Proof.
+  intros R. destruct (k_startfut (tasks s t)) as [f|] eqn:Ef; [|apply Inv_ret, R].
+  destruct (f_st (futs s f)); try (apply Inv_ret, R).
+  apply Inv_ret, Run_fut_complete; auto; [discriminate| |].
+  - right; right; left. eauto.
+  - intros r e _ Hin. exfalso. destruct R as [M _]. exact (kk_es s (m_j s M) f e t Hin Ef).
+Qed.
+
+Lemma Run_evadd t s e f : Run t s -> fresh s f -> Run t (evadd s e f).
+Proof. intros [M [Hr Hf]] F. exact (conj (M_evadd s e f M F) (conj Hr Hf)). Qed.
+
+Lemma op_handle_wait s t h : Run t s ->
+  Inv (fst (let '(s1, f) := event_wait s t (k_hevent (tasks s h)) in blocked (set_ctl s1 t (CHandleWait h f)))).
+Proof.
+  intros R. unfold event_wait. destruct (e_set (events s (k_hevent (tasks s h)))).
+  - apply Inv_block_yield; auto; [reflexivity|apply ctl_ok_plain; plain].
+  - rewrite new_fut_eq. destruct (Run_new_fut t s R) as [R1 F].
+    change (upd_event (nf s) (k_hevent (tasks s h))
+              (fun x => mkEvent (e_set x) (e_waiters x ++ [nfut s])))
+      with (evadd (nf s) (k_hevent (tasks s h)) (nfut s)).
+    apply Inv_block_on; [apply Run_evadd; auto|apply unwaited_evadd, F|reflexivity|discriminate|apply ctl_ok_plain; plain].
+Qed.
+
+Lemma op_yield s t : Run t s -> Inv (fst (blocked (set_ctl (bare_yield s t) t (CYield YCheckpoint)))).
+Proof. intros R. apply Inv_block_yield; auto; [reflexivity|apply ctl_ok_plain; plain]. Qed.
+
+Lemma op_ckif s t : Run t s ->
+  Inv (fst (if ckif_spins (nscope s) s (k_cur (tasks s t))
+            then blocked (set_ctl (bare_yield s t) t (CYield YCkIf))
+            else ret_to_puppet s t (RRet 0))).
+Proof.
+  intros R. destruct (ckif_spins _ _ _); [|apply Inv_ret, R].
+  apply Inv_block_yield; auto; [reflexivity|apply ctl_ok_plain; plain].
+Qed.
+
+Lemma ns_inactive s d sh : s_active (scopes (ns s d sh) (nscope s)) = false.
+Proof. rewrite ns_scope_new. reflexivity. Qed.
+
+Lemma ns_nscope s d sh : nscope (ns s d sh) = S (nscope s).
+Proof. reflexivity. Qed.
+
+(* a fresh scope entered by the running task *)
+Lemma Run_fresh_scope t s d sh : Run t s ->
+  let s2 := fst (scope_enter (ns s d sh) (nscope s) t) in Run t s2 /\ owns s2 t (nscope s).
+Proof.
+  intros R. cbn zeta. split.
+  - apply Run_scope_enter, Run_new_scope, R.
+  - apply scope_enter_owns; [apply ns_inactive|rewrite ns_nscope; lia].
+Qed.
+
+Lemma op_shield_ck s t : Run t s ->
+  Inv (fst (let '(s1, c) := new_scope s None true in
+      let s2 := fst (scope_enter s1 c t) in
+      blocked (set_ctl (bare_yield s2 t) t (CYield (YShield c))))).
+Proof.
+  intros R. rewrite new_scope_eq. cbn zeta. destruct (Run_fresh_scope t s None true R) as [R2 O].
+  apply Inv_block_yield; auto; [reflexivity|].
+  eapply ctl_ok_top; [reflexivity|exact O|discriminate|discriminate|discriminate].
+Qed.
+
+Lemma Run_casl t s w f : Run t s -> fresh s f -> Run t (casl s w f).
+Proof. intros [M [Hr Hf]] F. exact (conj (M_casl s w f M F) (conj Hr Hf)). Qed.
+
+Lemma op_sleep s t d : Run t s ->
+  Inv (fst (let '(s1, f) := new_fut s in
+      match d with
+      | Some dt =>
+          let '(s2, tm) := call_at s1 (now s1 + dt)%Z (TSleep f) in
+          blocked (set_ctl (suspend_on s2 t f) t (CSleep f tm))
+      | None => blocked (set_ctl (suspend_on s1 t f) t (CSleep f 0))
+      end)).
+Proof.
+  intros R. rewrite new_fut_eq. destruct (Run_new_fut t s R) as [R1 F]. destruct d as [dt|].
+  - rewrite call_at_eq.
+    apply Inv_block_on; [apply Run_casl; auto|exact (fresh_unwaited _ _ F)|reflexivity|discriminate|apply ctl_ok_plain; plain].
+  - apply Inv_block_on; [exact R1|exact (fresh_unwaited _ _ F)|reflexivity|discriminate|apply ctl_ok_plain; plain].
+Qed.
+
+Lemma Inv_park s t : Run t s -> Inv (set_running (park s t) None).
+Proof. intros [M [Hr Hf]]. split; [apply M_park; auto|reflexivity]. Qed.
+
+(* ---------------- spawning a group child ---------------- *)
+Definition spawned (s : st) (g : gid) (sf : option fid) : st := fst (spawn_task s g sf).
+
+Lemma spawn_task_eq s g sf : spawn_task s g sf = (spawned s g sf, ntask s).
+Proof. reflexivity. Qed.
+
+Lemma spawned_eq s g sf :
+  spawned s g sf =
+  let s1 := ns s None false in
+  let c := ntask s in
+  let gs := g_scope (groups s g) in
+  let s2 := talloc s1 (child_rec gs g (nscope s) (nevent s) sf) true in
+  let s3 := upd_scope s2 gs (fun x => sc_tasks (add c (s_tasks x)) x) in
+  let s4 := upd_group s3 g (gjoin c) in
+  call_soon (restart s4 (Some gs)) (HStep c).
+Proof. reflexivity. Qed.
+
+Lemma Run_spawn t s g sf : Run t s -> match sf with Some f => fresh s f | None => True end ->
+  let c := ntask s in let s' := spawned s g sf in
+  Run t s' /\ alloc s' c /\ k_startfut (tasks s' c) = sf /\ k_group (tasks s' c) = Some g /\ c <> t /\
+  (forall f, sf = Some f -> unwaited s' f) /\
+  (forall x, x <> c -> tview (tasks s' x) = tview (tasks s x) /\ k_cur (tasks s' x) = k_cur (tasks s x)) /\
+  (forall x, x < nscope s -> s_active (scopes s' x) = s_active (scopes s x) /\ s_host (scopes s' x) = s_host (scopes s x)) /\
+  events s' (nevent s) = event0 /\ (forall e, e <> nevent s -> events s' e = events s e) /\
+  nscope s <= nscope s' /\ k_hevent (tasks s' c) = nevent s.
+Proof.
+  intros R Hsf. cbn zeta. rewrite spawned_eq. cbn zeta.
+  set (c := ntask s). set (gs := g_scope (groups s g)).
+  set (k := child_rec gs g (nscope s) (nevent s) sf).
+  set (s1 := ns s None false). set (s2 := talloc s1 k true).
+  set (s3 := upd_scope s2 gs (fun x => sc_tasks (add c (s_tasks x)) x)).
+  set (s4 := upd_group s3 g (gjoin c)). set (s5 := restart s4 (Some gs)).
+  assert (R' := R). destruct R' as [M0 [Hr0 Hf0]].
+  destruct (k_run s (m_k s M0) t Hr0) as [_ [_ Halt]].
+  assert (Hct : c <> t) by (unfold alloc, c in *; lia).
+  destruct (Run_new_scope t s None false R) as [M1 [Hr1 Hf1]]. fold s1 in M1, Hr1, Hf1.
+  assert (Ok : newtask_ok s1 k true).
+  { unfold newtask_ok, k, child_rec. cbn [k_done k_waiter k_tdran k_final k_hexc k_hret k_ctl k_hscope k_startfut k_hevent k_group top_scope ctl_waiter].
+    refine (conj eq_refl (conj eq_refl (conj eq_refl (conj eq_refl (conj eq_refl (conj eq_refl (conj _ (conj eq_refl (conj _ (conj _ (conj eq_refl (conj _ (conj _ (conj eq_refl _)))))))))))))); try discriminate.
+    - unfold s1. rewrite ns_nscope. lia.
+    - destruct sf; [exact Hsf|exact I]. }
+  pose proof (M_talloc s1 k true M1 Ok) as M2. fold s2 in M2.
+  assert (T2c : tasks s2 c = k) by (unfold s2, talloc; cbn [tasks]; apply upd_same).
+  assert (T2o : forall x, x <> c -> tasks s2 x = tasks s x).
+  { intros x Hx. unfold s2, talloc. cbn [tasks]. now apply upd_other. }
+  assert (R2 : Run t s2).
+  { refine (conj M2 (conj Hr1 _)). rewrite T2o; auto. }
+  assert (R3 : Run t s3) by (apply Run_keeps; [apply keeps_tasks|exact R2]).
+  assert (R4 : Run t s4).
+  { destruct R3 as [M3 [Hr3 Hf3]]. refine (conj _ (conj Hr3 Hf3)). apply M_gjoin; auto.
+    - change (tasks s3) with (tasks s2). rewrite T2c. reflexivity.
+    - unfold alloc. change (ntask s3) with (S c). pose proof (c_n s (m_c s M0)). unfold c. lia.
+    - change (tasks s3) with (tasks s2). rewrite T2c. reflexivity.
+    - intros g' Hin. change (groups s3) with (groups s) in Hin.
+      destruct (g_grp s (m_g s M0) g' c Hin) as [_ [_ H]]. unfold c in H. lia. }
+  pose proof (ks_restart none_s none_t s4 (Some gs)) as KS. fold s5 in KS.
+  pose proof (kframe_kstar _ _ _ _ KS) as F.
+  assert (R5 : Run t s5) by (apply (Run_kstar_none t _ _ KS), R4).
+  assert (V5 : forall x, tview (tasks s5 x) = tview (tasks s2 x)).
+  { intros x. rewrite (fr_tv _ _ _ _ F x). reflexivity. }
+  assert (T5c : k_waiter (tasks s5 c) = None /\ k_done (tasks s5 c) = None /\ k_startfut (tasks s5 c) = sf /\
+                k_group (tasks s5 c) = Some g /\ k_hevent (tasks s5 c) = nevent s).
+  { pose proof (tview_inv _ _ (V5 c)) as V. rewrite T2c in V.
+    destruct V as [_ [V2 [V3 [V4 [_ [V6 [_ [_ [V9 _]]]]]]]]]. rewrite V2, V3, V4, V6, V9. unfold k. cbn. auto. }
+  destruct T5c as [W5 [D5 [S5 [G5 E5]]]].
+  assert (Al5 : alloc s5 c).
+  { unfold alloc. rewrite (fr_ntask _ _ _ _ F). change (ntask s4) with (S c). pose proof (c_n s (m_c s M0)). unfold c. lia. }
+  assert (R6 : Run t (call_soon s5 (HStep c))).
+  { destruct R5 as [M5 [Hr5 Hf5]]. refine (conj _ (conj Hr5 Hf5)). apply M_soon_step; auto.
+    - intros Hin. apply in_thtasks in Hin. destruct Hin as [Hin|[f Hin]].
+      + apply (fr_step _ _ _ _ F) in Hin. change (ready s4) with (ready s) in Hin.
+        destruct (k_step s (m_k s M0) c Hin) as [_ [_ [_ [_ H]]]]. unfold c in H. lia.
+      + destruct (k_wake s5 (m_k s5 M5) c f Hin) as [H _]. congruence.
+    - rewrite Hr5. congruence. }
+  refine (conj R6 (conj Al5 (conj S5 (conj G5 (conj Hct (conj _ (conj _ (conj _ (conj _ (conj _ (conj _ E5))))))))))).
+  - intros f ->. destruct (fresh_unwaited s f Hsf) as [U1 [U2 U3]].
+    assert (U4 : forall x, k_waiter (tasks s4 x) <> Some f).
+    { intros x. change (tasks s4) with (tasks s2). destruct (Nat.eq_dec x c) as [->|Hx]; [rewrite T2c; discriminate|].
+      rewrite T2o; auto. }
+    unfold unwaited. change (nfut (call_soon s5 (HStep c))) with (nfut s5). change (futs (call_soon s5 (HStep c))) with (futs s5).
+    change (tasks (call_soon s5 (HStep c))) with (tasks s5).
+    assert (Ef : futs s5 f = futs s f).
+    { destruct (Nat.eq_dec 0 0) as [_|]; [|contradiction].
+      assert (H : ~ futs s5 f <> futs s4 f).
+      { intros H. destruct (fr_fut3 _ _ _ _ F f H) as [x Hx]. exact (U4 x Hx). }
+      destruct (fr_fut2 _ _ _ _ F f) as [E|[_ [o Ho]]]; [exact E|].
+      exfalso. apply H. intros E. rewrite E in Ho. change (futs s4) with (futs s) in Ho. rewrite U2 in Ho. discriminate. }
+    refine (conj _ (conj _ _)).
+    + rewrite (fr_nfut _ _ _ _ F). exact U1.
+    + rewrite Ef. exact U2.
+    + intros x. pose proof (tview_inv _ _ (fr_tv _ _ _ _ F x)) as V. destruct V as [_ [_ [V _]]]. rewrite V. apply U4.
+  - intros x Hx. split.
+    + change (tasks (call_soon s5 (HStep c))) with (tasks s5). rewrite V5, T2o; auto.
+    + change (tasks (call_soon s5 (HStep c))) with (tasks s5). rewrite (fr_cur _ _ _ _ F x (fun z => z)).
+      change (tasks s4) with (tasks s2). rewrite T2o; auto.
+  - intros x Hx. change (scopes (call_soon s5 (HStep c))) with (scopes s5).
+    destruct (fr_sc _ _ _ _ F x (fun z => z)) as [E1 [E2 _]]. rewrite E1, E2.
+    assert (Es : s_active (scopes s4 x) = s_active (scopes s1 x) /\ s_host (scopes s4 x) = s_host (scopes s1 x)).
+    { unfold s4, s3. cbn [upd_group set_groups upd_scope set_scopes scopes]. change (scopes s2) with (scopes s1).
+      unfold upd. destruct (Nat.eqb_spec x gs) as [E|E]; [rewrite E; cbn; auto|auto]. }
+    destruct Es as [-> ->]. unfold s1. rewrite ns_scope_old; [auto|lia].
+  - change (events (call_soon s5 (HStep c))) with (events s5). rewrite (fr_events _ _ _ _ F).
+    change (events s4) with (events s2). unfold s2, talloc. cbn [events]. apply upd_same.
+  - intros e He. change (events (call_soon s5 (HStep c))) with (events s5). rewrite (fr_events _ _ _ _ F).
+    change (events s4) with (events s2). unfold s2, talloc. cbn [events]. now apply upd_other.
+  - change (nscope (call_soon s5 (HStep c))) with (nscope s5). rewrite (fr_nscope _ _ _ _ F).
+    change (nscope s4) with (S (nscope s)). lia.
+Qed.
+
+Lemma op_spawn s t g : Run t s ->
+  Inv (fst (if negb (group_active s g) then ret_to_puppet s t (RExc ERuntime) else
+            let '(s1, c) := spawn_task s g None in ret_to_puppet s1 t (RRet c))).
+Proof.
+  intros R. destruct (negb (group_active s g)); [apply Inv_ret, R|].
+  rewrite spawn_task_eq. apply Inv_ret. apply (Run_spawn t s g None R I).
+Qed.
+
+Lemma op_start s t g : Run t s ->
+  Inv (fst (if negb (group_active s g) then ret_to_puppet s t (RExc ERuntime) else
+      let '(s1, f) := new_fut s in
+      let '(s2, c) := spawn_task s1 g (Some f) in
+      blocked (set_ctl (suspend_on s2 t f) t (CStartWait g c f)))).
+Proof.
+  intros R. destruct (negb (group_active s g)); [apply Inv_ret, R|].
+  rewrite new_fut_eq. destruct (Run_new_fut t s R) as [R1 F]. rewrite spawn_task_eq.
+  destruct (Run_spawn t (nf s) g (Some (nfut s)) R1 F) as [R2 [H1 [H2 [H3 [H4 [H5 _]]]]]].
+  apply Inv_block_on; auto; [reflexivity|discriminate|].
+  refine (conj _ (conj _ (conj _ _))); try discriminate.
+  intros g0 ch f0 E. injection E as <- <- <-. auto.
+Qed.
+
+(* ---------------- __aexit__ ---------------- *)
+Lemma Run_gr_left t s g b : Run t s -> Run t (upd_group s g (gr_left b)).
+Proof. intros [M [Hr Hf]]. exact (conj (M_gr_left s g b M) (conj Hr Hf)). Qed.
+
+Lemma Run_aexit_raise t s g e : Run t s -> Run t (fst (aexit_raise s t g e)).
+Proof.
+  intros R. unfold aexit_raise.
+  pose proof (Run_scope_exit t s (g_scope (groups s g)) (Some e) R) as R1.
+  destruct (scope_exit s (g_scope (groups s g)) t (Some e)) as [s1 x]. cbn [fst] in R1.
+  pose proof (Run_gr_left t s1 g true R1) as R2.
+  destruct x; cbn [fst]; auto. apply Run_upd_task_irrel; auto using irrel_held.
+Qed.
+
+Lemma Run_aexit_finish t s g exc : Run t s -> Run t (fst (aexit_finish s t g exc)).
+Proof.
+  intros R. unfold aexit_finish. destruct (map snd (g_excs (groups s g))) as [|a l].
+  - destruct exc as [e|]; [apply Run_aexit_raise, R|].
+    pose proof (Run_scope_exit t s (g_scope (groups s g)) None R) as R1.
+    destruct (scope_exit s (g_scope (groups s g)) t None) as [s1 x]. cbn [fst] in R1.
+    pose proof (Run_gr_left t s1 g true R1) as R2. destruct x; exact R2.
+  - apply Run_aexit_raise, R.
+Qed.
+
+Lemma Inv_ret_pair t (p : st * res) : Run t (fst p) -> Inv (fst (let '(s2, r) := p in ret_to_puppet s2 t r)).
+Proof. destruct p as [s2 r]. cbn [fst]. apply Inv_ret. Qed.
+
+Lemma Run_gr_fut_some t s g f : Run t s -> fresh s f -> Run t (upd_group s g (gr_fut (Some f))).
+Proof. intros [M [Hr Hf]] F. exact (conj (M_gr_fut_some s g f M F) (conj Hr Hf)). Qed.
+
+Lemma Run_gr_fut_none t s g : Run t s -> Run t (upd_group s g (gr_fut None)).
+Proof. intros [M [Hr Hf]]. exact (conj (M_gr_fut_none s g M) (conj Hr Hf)). Qed.
+
+Lemma aexit_block s t g w exc : Run t s -> owns s t w ->
+  Inv (fst (let '(s1, f) := new_fut s in
+            let s2 := upd_group s1 g (gr_fut (Some f)) in
+            blocked (set_ctl (suspend_on s2 t f) t (CAexitWait g w exc)))).
+Proof.
+  intros R O. rewrite new_fut_eq. cbn zeta. destruct (Run_new_fut t s R) as [R1 F].
+  apply Inv_block_on; [apply Run_gr_fut_some; auto|exact (fresh_unwaited _ _ F)|exact I|discriminate|].
+  eapply ctl_ok_top; [reflexivity|exact O|discriminate|discriminate|discriminate].
+Qed.
+
+Lemma Inv_aexit_wof s t g ws exc : Run t s -> (forall w, ws = Some w -> owns s t w) ->
+  Inv (fst (aexit_wait_or_finish s t g ws exc)).
+Proof.
+  intros R O. unfold aexit_wait_or_finish. destruct (g_tasks (groups s g)) as [|a l].
+  - destruct ws as [w|].
+    + pose proof (Run_scope_exit t s w None R) as R1.
+      destruct (scope_exit s w t None) as [s1 x]. cbn [fst] in R1.
+      destruct x; apply Inv_ret_pair; try (apply Run_aexit_finish, R1). apply Run_aexit_raise, R1.
+    + apply Inv_ret_pair, Run_aexit_finish, R.
+  - destruct ws as [w|].
+    + apply aexit_block; auto.
+    + rewrite new_scope_eq. destruct (Run_fresh_scope t s None false R) as [R2 O2].
+      apply aexit_block; auto.
+Qed.
+
+Lemma Run_add_exc_body t s g e : Run t s -> is_cancel e = false -> Run t (upd_group s g (add_exc 0 e)).
+Proof. intros [M [Hr Hf]] He. exact (conj (M_add_exc_body s g e M He) (conj Hr Hf)). Qed.
+
+Lemma op_group_exit s t g : Run t s ->
+  Inv (fst (let exc := k_held (tasks s t) in
+      let gs := g_scope (groups s g) in
+      let s1 := match exc with
+                | Some e =>
+                    let a := scope_cancel s gs false in
+                    if is_cancel e then a else upd_group a g (fun x => gr_excs (g_excs x ++ [(0, e)]) x)
+                | None => s
+                end in
+      match g_tasks (groups s1 g) with
+      | [] =>
+          let '(s2, c) := new_scope s1 None true in
+          let s3 := fst (scope_enter s2 c t) in
+          blocked (set_ctl (bare_yield s3 t) t (CAexitCk g c exc))
+      | _ => aexit_wait_or_finish s1 t g None exc
+      end)).
+Proof.
+  intros R. cbn zeta.
+  match goal with |- context [match g_tasks (groups ?x g) with _ => _ end] => set (s1 := x) end.
+  assert (R1 : Run t s1).
+  { unfold s1. destruct (k_held (tasks s t)) as [e|]; [|exact R].
+    pose proof (Run_kstar_none t _ _ (ks_scope_cancel _ _ s (g_scope (groups s g)) false) R) as Rc.
+    destruct (is_cancel e) eqn:Ec; [exact Rc|]. apply (Run_add_exc_body t _ g e Rc Ec). }
+  destruct (g_tasks (groups s1 g)) as [|a l].
+  - rewrite new_scope_eq. cbn zeta. destruct (Run_fresh_scope t s1 None true R1) as [R2 O].
+    apply Inv_block_yield; auto; [reflexivity|].
+    eapply ctl_ok_top; [reflexivity|exact O|discriminate|discriminate|discriminate].
+  - apply Inv_aexit_wof; auto. intros w E. discriminate.
+Qed.
